@@ -45,6 +45,19 @@ def target_obj(ctx, **kw):
     return Obj("target", **attrs)
 
 
+def ctx_obj(ctx, **kw):
+    """Stand-in for gwf.core.Context: the given attributes, the class's own properties (config_dir, logs_dir ...) and placeholders for the rest."""
+    try:
+        ci = ctx.index.cls("gwf.core:Context")
+    except Exception:
+        ci = None
+    attrs = {"working_dir": "/p", "config": {}, "backend": "B", "workflow_file": "workflow.py", "workflow_obj": "gwf"}
+    attrs.update(kw)
+    if ci is not None:
+        attrs["__class__"] = ci
+    return Obj("ctx", **attrs)
+
+
 def click_defaults(ctx, fn):
     """{parameter name: value click passes when the option/argument is not given} read from the command's click.option / click.argument decorators."""
     idx = ctx.index
@@ -837,7 +850,7 @@ def eval_cancel_command(ctx, patterns=(), force=False, fail=None):
     interp = PureInterp(ctx, hooks=hooks)
     out = {"events": events, "raised": None}
     try:
-        call_command(ctx, interp, cc, (Obj("ctx", backend="B", working_dir=PROJ, config={}), tuple(patterns), force))
+        call_command(ctx, interp, cc, (ctx_obj(ctx, backend="B", working_dir=PROJ, config={}), tuple(patterns), force))
     except Raised as exc:
         out["raised"] = exc.kind
     except Unsupported as exc:
@@ -1300,7 +1313,7 @@ def find_workflow_witness(ctx):
         got, looked = eval_find_workflow(ctx, spec, cwd, existing, links)
         if isinstance(got, tuple) and isinstance(got[0], str):
             got = (_pp.normpath(got[0]), got[1])      # '..' collapsed or not is the same location
-        if isinstance(got, str) and got.startswith("<unsupported: loop bound"):
+        if isinstance(got, str) and got.startswith("<unsupported") and "loop bound" in got:
             got = "no termination (the search never stops at the root directory)"
         if isinstance(got, str) and got.startswith("<unsupported"):
             return n, diffs, got
@@ -1372,7 +1385,7 @@ def eval_config_session(ctx):
 
     def invocation():
         cfg = interp.call(load, (PathTok(CFG),), {}, self_obj=ci)
-        return Obj("ctx", config=cfg)
+        return ctx_obj(ctx, config=cfg)
 
     def run(step, fn, want):
         try:
@@ -1640,7 +1653,7 @@ def eval_clean_command(ctx, targets=(), all_=False, force=False, decline=False):
     interp.max_depth = 10
     out = {"events": events, "raised": None}
     try:
-        call_command(ctx, interp, fn, (Obj("ctx", working_dir="/p", config={}, backend="B"), tuple(targets), all_, force))
+        call_command(ctx, interp, fn, (ctx_obj(ctx, working_dir="/p", config={}, backend="B"), tuple(targets), all_, force))
     except Raised as exc:
         out["raised"] = exc.kind
     except Unsupported as exc:
@@ -1724,7 +1737,7 @@ def eval_touch_command(ctx, targets=(), project=None, reverse=False):
     interp.max_depth = 30
     out = {"events": events, "raised": None}
     try:
-        call_command(ctx, interp, fn, (Obj("ctx", working_dir="/p", config={}, backend="B"), tuple(targets)))
+        call_command(ctx, interp, fn, (ctx_obj(ctx, working_dir="/p", config={}, backend="B"), tuple(targets)))
     except Raised as exc:
         out["raised"] = exc.kind
     except Unsupported as exc:
@@ -1845,7 +1858,7 @@ def eval_run_command(ctx, targets=(), dry_run=False, states=None, stale=(), conf
     interp.max_depth = 40
     out = {"events": events, "raised": None}
     try:
-        call_command(ctx, interp, fn, (Obj("ctx", working_dir="/p", config=cfg, backend="B"), tuple(targets), dry_run))
+        call_command(ctx, interp, fn, (ctx_obj(ctx, working_dir="/p", config=cfg, backend="B"), tuple(targets), dry_run))
     except Raised as exc:
         out["raised"] = exc.kind
         out["detail"] = exc.detail
@@ -2527,7 +2540,7 @@ def eval_status_command(ctx, status=(), endpoints=False, fmt="default", targets=
     interp.max_depth = 40
     out = {"events": events, "lines": lines, "raised": None}
     try:
-        call_command(ctx, interp, fn, (Obj("ctx", working_dir="/p", config={}, backend="B"), tuple(status), endpoints, fmt, tuple(targets)))
+        call_command(ctx, interp, fn, (ctx_obj(ctx, working_dir="/p", config={}, backend="B"), tuple(status), endpoints, fmt, tuple(targets)))
     except Raised as exc:
         out["raised"] = exc.kind
         out["detail"] = exc.detail
@@ -2836,7 +2849,7 @@ def eval_workers_command(ctx, text):
     else:
         raise Unsupported("the parameter receiving --num-workers was not found")
     try:
-        interp.call(fn, (Obj("ctx", working_dir=PROJ, config={}, backend="local"),), kwargs)
+        interp.call(fn, (ctx_obj(ctx, working_dir=PROJ, config={}, backend="local"),), kwargs)
     except Raised as exc:
         return {"raised": f"{exc.kind}: {exc.detail[:60]}"}
     if len(captured) != 1:
